@@ -121,12 +121,21 @@ def oracle(c, st):
                     if len2(cross(e1, e2)) < Fr(1, 10 ** 14) * len2(e1) * len2(e2) or len2(e1) < TOL_COL ** 2 or len2(e2) < TOL_COL ** 2:
                         return ('C04:closed-collinear' + (':after-retrace' if retraced else ''), 'vertex %d of a closed loop is collinear with its neighbours' % i)
                 f32 = bool(st is not None and st.f32)
+                # planarity is judged geometrically, against the exact plane of the widest corner of the loop itself (the stored
+                # normal is C10's business: for a sliver built from three nearly aligned f32 points it is rounding noise)
+                best = None
+                for i in range(m):
+                    a, b, cc = v[i - 1], v[i], v[(i + 1) % m]
+                    N = cross(sub(b, a), sub(cc, b)); nn = len2(N)
+                    if best is None or nn > best[0]: best = (nn, N, b)
+                nn, N, a0 = best
                 for q in v:
-                    # 1e-6 (ten times the crate's own 1e-7) for the f64 build; the f32 build stores the vertices and the
-                    # normal rounded to 24 bits, which alone moves n.(v0-q) by a few ulps of the coordinates: allow for it
+                    # 1e-6 (ten times the crate's own 1e-7) for the f64 build; the f32 build stores the vertices rounded to 24
+                    # bits, which alone moves a vertex off the plane by a few ulps of the coordinates: allow for it
                     tolq = Fr(1, 10 ** 6)
-                    if f32: tolq += Fr(16, 2 ** 23) * (max(abs(x) for x in v[0] + q) + sum(abs(x) for x in sub(v[0], q)))
-                    if abs(dot(n, sub(v[0], q))) > tolq: return ('C04:closed-nonplanar', 'closed loop is not planar')
+                    if f32: tolq += Fr(16, 2 ** 23) * (max(abs(x) for x in a0 + q) + sum(abs(x) for x in sub(a0, q)))
+                    h = dot(N, sub(a0, q))
+                    if nn > 0 and h * h > tolq * tolq * nn: return ('C04:closed-nonplanar', 'closed loop is not planar')
                 # no two non-adjacent edges of a closed loop properly cross (clear crossings only: interior to both by 1%, angle > 0.6 deg)
                 ax = dominant_axis(n); pv2 = [project(q, ax) for q in v]
                 for i in range(m):
